@@ -46,7 +46,7 @@ MAX_PEERS = 4
 LINGER0 = struct.pack('ii', 1, 0)
 SETTLE_BOUND = 400
 
-SERVER_OPS = (['conn'] * 4 + ['send'] * 5 + ['shut'] * 2 + ['close'] * 2 + ['abort'] * 3 + ['drain'] +
+SERVER_OPS = (['conn'] * 5 + ['send'] * 5 + ['shut'] * 2 + ['close'] * 2 + ['abort'] * 3 + ['drain'] +
               ['swrite'] * 3 + ['sclose'] * 2 + ['swclose'] * 2 + ['lwrite'] * 3 + ['lclose'] * 3 + ['step'])
 CLIENT_OPS = (['connect'] * 4 + ['psend'] * 3 + ['pshut'] * 2 + ['pclose'] * 2 + ['pabort'] * 2 +
               ['cwrite'] * 2 + ['cclose'] * 2 + ['cwclose'] * 2 + ['step'])
@@ -244,7 +244,7 @@ class _ServerRun:
     def op(self, name, a, b, k):
         if name == 'conn':
             if len(self.live_peers()) < MAX_PEERS:
-                slow = (b % 4 == 1)
+                slow = (a % 3 == 0)
                 c = socket.socket(socket.AF_INET, socket.SOCK_STREAM)
                 if slow:
                     c.setsockopt(socket.SOL_SOCKET, socket.SO_RCVBUF, 2048)
@@ -255,7 +255,7 @@ class _ServerRun:
                 self.peers.append(p)
                 if len(self.live_peers()) >= 3:
                     self.classes.add('concurrent>=3')
-                if b % 8 != 7:
+                if b % 8 < 5:
                     # usual case: let the loop accept it (bounded; condition visible to the harness)
                     for _ in range(50):
                         if p.sidx is not None:
@@ -263,6 +263,18 @@ class _ServerRun:
                         self.it()
                 else:
                     self.classes.add('conn-not-awaited')
+                    if b % 8 == 5:
+                        # fire-and-forget peer: connect, send, close before the server even accepted
+                        off = p.n * 4099
+                        try:
+                            p.sent += c.send(STREAM[off:off + 100])
+                        except OSError:
+                            pass
+                        self.end_peer(p, abort=False)
+                        self.classes.add('closed-before-accept')
+                    elif b % 8 == 6:
+                        # port-scan shape: connect and reset at once
+                        self.end_peer(p, abort=True)
         elif name == 'send':
             c = [p for p in self.live_peers() if not p.shut]
             if c:
@@ -382,8 +394,9 @@ class _ServerRun:
             self.port = self.srv.port
             self.listener = self.srv._sock
             try:
-                for name, a, b, k in spec['ops']:
-                    self.op(name, a, b, k)
+                for o in spec['ops']:
+                    if len(o) == 4:          # the runner's structural shrinker may cut an op short
+                        self.op(*o)
                 # teardown, phase A: a close the application asked for must complete on its own while the
                 # peer is still there and reading (deferred close waits for the buffer only)
                 bound = SETTLE_BOUND + sum(p.sent for p in self.peers) // 2048 + sum(self.swritten.values()) // 1024
@@ -583,6 +596,15 @@ class _ClientRun:
         ev = self.obs.ev
         return ev.count('connected') - ev.count('disconnected')
 
+    def accept(self):
+        try:
+            s, _ = self.lsock.accept()
+        except OSError:
+            return None
+        s.setblocking(False)
+        self.accepted.append(s)
+        return s
+
     def wait(self, cond, bound=60):
         for _ in range(bound):
             if cond():
@@ -598,13 +620,16 @@ class _ClientRun:
                 before = self.obs.ev.count('connected')
                 self.root.fire(connect_ev('127.0.0.1', self.port), 'client')
                 self.wait(lambda: self.obs.ev.count('connected') > before)
-                try:
-                    s, _ = self.lsock.accept()
-                except OSError:
-                    s = None
+                s = self.accept()
+                if s is None and self.obs.ev.count('connected') > before:
+                    for _ in range(50):          # the client says connected: the kernel must hand it over
+                        self.it()
+                        s = self.accept()
+                        if s is not None:
+                            break
+                    else:
+                        self.inconclusive = True
                 if s is not None:
-                    s.setblocking(False)
-                    self.accepted.append(s)
                     self.peer = s
                     self.peer_open = True
                     self.peer_sent = 0
@@ -673,8 +698,9 @@ class _ClientRun:
                 root.tick()
             self.settled = False
             try:
-                for name, a, b, k in self.spec['ops']:
-                    self.op(name, a, b, k)
+                for o in self.spec['ops']:
+                    if len(o) == 4:
+                        self.op(*o)
                 if self.peer_open and self.outstanding() > 0 and self.close_requested == self.obs.ev.count('connected'):
                     # a close the application asked for completes on its own while the peer keeps reading
                     for _ in range(SETTLE_BOUND):
@@ -695,6 +721,11 @@ class _ClientRun:
                 if self.peer_open:
                     self.peer.close()
                     self.peer_open = False
+                while True:                      # nothing may stay behind in the accept queue
+                    s = self.accept()
+                    if s is None:
+                        break
+                    s.close()
                 extra = None
                 for _ in range(SETTLE_BOUND):
                     if extra is None and self.outstanding() <= 0 and driver.quiescent(root):
